@@ -281,3 +281,21 @@ func isNilNode(n ast.Node) bool {
 	}
 	return false
 }
+
+// C13: the first vertex of an empty index is registered in the id map before it is offered as entry point (Insert's
+// branch for a nil entry point: storeVertex, then CompareAndSwapPointer from nil) - the order of Proto/FirstInsert.v
+// with store_first = true.
+func init() { extraExtractors = append(extraExtractors, factsFirstInsert) }
+
+func factsFirstInsert() {
+	const name, typ = "first_vertex_stored_before_published", "bool"
+	txt, fd := bodyText("index/hnsw.go", "Hnsw", "Insert")
+	if fd == nil {
+		unrec(name, typ, "Hnsw.Insert not found")
+		return
+	}
+	want := "if (*hnswVertex)(atomic.LoadPointer(&this.entrypoint)) == nil { vertex = newHnswVertex(id, value, metadata, 0) if err := this.storeVertex(vertex); err != nil { return err } if atomic.CompareAndSwapPointer(&this.entrypoint, nil, unsafe.Pointer(vertex)) { return nil }"
+	is, ic := strings.Index(txt, "this.storeVertex(vertex)"), strings.Index(txt, "atomic.CompareAndSwapPointer(&this.entrypoint, nil,")
+	known(name, typ, b(strings.Contains(txt, want) && is >= 0 && ic > is),
+		"Insert into an empty index: storeVertex, then the compare-and-swap of the entry point from nil")
+}
